@@ -163,6 +163,8 @@ pub struct Recs {
     pub pairs: Vec<(u32, u64, &'static str)>,
     /// value id -> origin of the key instance passed to the insert / try_insert that wrote it
     pub key_of: Vec<(u64, u32)>,
+    /// key comparisons made by each lookup: (thread, key tag, comparisons)
+    pub lookup_cmps: Vec<(u8, u32, u64)>,
 }
 
 #[derive(Clone, Debug)]
@@ -243,6 +245,8 @@ pub struct ConcOut {
     pub table_len_after: usize,
     pub tree_bins_before: usize,
     pub tree_bins_after: usize,
+    /// bin index -> (is a tree bin, entries) after the run
+    pub bins_after: BTreeMap<usize, (bool, usize)>,
     pub end_stamp: u64,
     /// K/V instances dropped before the map itself was dropped
     pub reclaimed_during_run: u64,
@@ -286,7 +290,10 @@ fn run_thread(wk: &Wk<'_>, map: &FMap, cfg: &CCfg, ops: &[COp], hold: bool, log:
     let me = wk.me as u8;
     let thread_guard = if cfg.gmode == GuardMode::PerThread { Some(map.guard()) } else { None };
     for op in ops {
-        let own_guard = if cfg.gmode == GuardMode::PerOp { Some(map.guard()) } else { None };
+        // (serialisation and Debug take no guard: under the per-operation and pinned modes the
+        // thread then holds none of its own, so the entry point's own pinning is what protects it)
+        let guardless = matches!(op, COp::IterAll(k) if *k >= 3);
+        let own_guard = if cfg.gmode == GuardMode::PerOp && !guardless { Some(map.guard()) } else { None };
         let g: Option<&seize::Guard<'_>> = thread_guard.as_ref().or(own_guard.as_ref());
         macro_rules! hv {
             ($v:expr) => {{
@@ -312,6 +319,7 @@ fn run_thread(wk: &Wk<'_>, map: &FMap, cfg: &CCfg, ops: &[COp], hold: bool, log:
             COp::Get(i) | COp::GetKV(i) => {
                 let tag = hot_tag(*i);
                 let k = K::probe(tag);
+                let c0 = cmps();
                 let inv = wk.op_start();
                 let ret = match (g, matches!(op, COp::GetKV(_))) {
                     (Some(g), false) => map.get(&k, g).map(|v| hv!(v)),
@@ -338,17 +346,20 @@ fn run_thread(wk: &Wk<'_>, map: &FMap, cfg: &CCfg, ops: &[COp], hold: bool, log:
                     }
                 };
                 let resp = wk.op_end();
+                log.recs.lookup_cmps.push((me, tag, cmps() - c0));
                 log.recs.ops.push(HEnt { thread: me, inv, resp, key: tag, op: HOp::Get { ret } });
             }
             COp::Contains(i) => {
                 let tag = hot_tag(*i);
                 let k = K::probe(tag);
+                let c0 = cmps();
                 let inv = wk.op_start();
                 let ret = match g {
                     Some(g) => map.contains_key(&k, g),
                     None => map.pin().contains_key(&k),
                 };
                 let resp = wk.op_end();
+                log.recs.lookup_cmps.push((me, tag, cmps() - c0));
                 log.recs.ops.push(HEnt { thread: me, inv, resp, key: tag, op: HOp::Contains { ret } });
             }
             COp::Insert(i) => {
@@ -615,8 +626,14 @@ fn run_thread(wk: &Wk<'_>, map: &FMap, cfg: &CCfg, ops: &[COp], hold: bool, log:
                 let created = wk.op_start();
                 let mut yields = Vec::new();
                 let pin;
+                let unprot;
                 let gg: &seize::Guard<'_> = match g {
                     Some(g) => g,
+                    None if *kind >= 3 => {
+                        // never used by these kinds
+                        unprot = unsafe { seize::Guard::unprotected() };
+                        &unprot
+                    }
                     None => {
                         pin = map.guard();
                         &pin
@@ -645,6 +662,13 @@ fn run_thread(wk: &Wk<'_>, map: &FMap, cfg: &CCfg, ops: &[COp], hold: bool, log:
                     // serialisation (serde): a traversal too.  3 / 4: JSON text of the map / of a
                     // pinned reference, re-read keeping duplicate keys; 5 / 6: the same through a
                     // format that trusts the announced length
+                    // Debug of the map / of a pinned reference (exercised, not judged by content)
+                    7 | 8 => {
+                        let text = if *kind == 7 { format!("{:?}", map) } else { format!("{:?}", map.pin()) };
+                        if !text.starts_with('{') || !text.ends_with('}') {
+                            log.recs.faults.push(format!("C07: Debug of the map under update printed {:?}", text));
+                        }
+                    }
                     k => {
                         let k = *k;
                         let pinned = k % 2 == 0;
@@ -670,7 +694,9 @@ fn run_thread(wk: &Wk<'_>, map: &FMap, cfg: &CCfg, ops: &[COp], hold: bool, log:
                     verify_held(log, "before the iteration's guard was released");
                 }
                 let end = wk.op_end();
-                log.recs.iters.push(IterRec { thread: me, kind: *kind, created, end, yields });
+                if *kind < 7 {
+                    log.recs.iters.push(IterRec { thread: me, kind: *kind, created, end, yields });
+                }
             }
             COp::Len => {
                 let inv = wk.op_start();
@@ -729,6 +755,7 @@ impl Default for SchedSpec<'_> {
 /// run one (program, schedule) pair
 pub fn exec(pool: &Pool, prog: &Prog, spec: SchedSpec<'_>, opts: &ExecOpts, map_in: Option<(Arc<FMap>, BTreeMap<u32, (u32, u64, u64)>)>) -> ConcOut {
     set_hot_pat(prog.cfg.hot_pat);
+    let _ = take_dead_touch();
     if map_in.is_none() {
         ledger_reset();
     }
@@ -822,11 +849,17 @@ pub fn exec(pool: &Pool, prog: &Prog, spec: SchedSpec<'_>, opts: &ExecOpts, map_
             recs.panics += r.panics;
             recs.pairs.extend(r.pairs);
             recs.key_of.extend(r.key_of);
+            recs.lookup_cmps.extend(r.lookup_cmps);
         }
     }
     let mut oracle_fail: Option<(&'static str, String)> = None;
     if let Some(m) = retire_fail.lock().unwrap().take() {
         oracle_fail = Some(("C03", m));
+    }
+    if let Some(m) = take_dead_touch() {
+        if oracle_fail.is_none() {
+            oracle_fail = Some(("C03", format!("during the concurrent part {}", m)));
+        }
     }
     let mut fin = BTreeMap::new();
     let mut after = inspect::Shape::default();
@@ -1018,6 +1051,7 @@ pub fn exec(pool: &Pool, prog: &Prog, spec: SchedSpec<'_>, opts: &ExecOpts, map_
         table_len_after: after.table_len,
         tree_bins_before: before.tree_bins,
         tree_bins_after: after.tree_bins,
+        bins_after: after.bins.clone(),
         end_stamp: out.steps + 1,
         reclaimed_during_run,
         probe_obs,
@@ -1128,10 +1162,10 @@ fn key_strategy(hot: u16) -> BoxedStrategy<u16> {
     prop_oneof![5 => 0u16..h.min(3), 3 => h.saturating_sub(2)..h, 2 => 0u16..h].boxed()
 }
 
-/// kinds of full traversal: iter / keys / values, and serialisation (JSON or length-trusting
-/// format, of the map or of a pinned reference)
+/// kinds of full traversal: iter / keys / values, serialisation (JSON or length-trusting format,
+/// of the map or of a pinned reference), Debug (of the map or of a pinned reference)
 pub fn iter_kind() -> BoxedStrategy<u8> {
-    prop_oneof![6 => 0u8..3, 2 => 3u8..7].boxed()
+    prop_oneof![6 => 0u8..3, 2 => 3u8..7, 2 => 7u8..9].boxed()
 }
 
 pub fn cop_strategy(mix: Mix, hot: u16) -> BoxedStrategy<COp> {
@@ -1422,7 +1456,7 @@ pub const CROWD_SIZES: [u16; 20] = [1, 2, 3, 4, 7, 8, 9, 15, 16, 17, 31, 32, 33,
 fn crowd_prog_strategy() -> BoxedStrategy<Prog> {
     let hm = prop_oneof![3 => Just(HMode::Identity), 1 => Just(HMode::SameBin), 1 => Just(HMode::Const0)];
     let n = prop_oneof![6 => 9u16..15, 1 => Just(3u16), 1 => Just(7u16)];
-    (hm, n, proptest::sample::select(CROWD_SIZES.to_vec()), prop_oneof![Just(GuardMode::PerOp), Just(GuardMode::PerThread), Just(GuardMode::Pin)], 0u8..3, any::<bool>()).prop_flat_map(|(hmode, n, size, gmode, kind, big)| {
+    (hm, n, proptest::sample::select(CROWD_SIZES.to_vec()), prop_oneof![Just(GuardMode::PerOp), Just(GuardMode::PerThread), Just(GuardMode::Pin)], 0u8..4, any::<bool>()).prop_flat_map(|(hmode, n, size, gmode, kind, big)| {
         // under the all-colliding hashers every key shares the bin: trees of 39-44 nodes, in which a
         // linear walk costs more comparisons than the logarithmic bound allows
         let n = if big && hmode != HMode::Identity && n >= 9 { n + 30 } else { n };
@@ -1432,13 +1466,14 @@ fn crowd_prog_strategy() -> BoxedStrategy<Prog> {
             prop_oneof![5 => k.clone().prop_map(COp::Get), 1 => k.clone().prop_map(COp::GetKV), 1 => k.prop_map(COp::Contains)].boxed()
         };
         let write = cop_strategy(Mix::Crowd, hot);
-        // kind 0: all lookups; 1: lookups with a few updates among them; 2: mostly updates
+        // kind 0: all lookups; 1: lookups with a few updates among them; 2: mostly updates;
+        // 3: lookups only, the last thread included (the cost of a lookup among other readers)
         let member = match kind {
-            0 => read.clone(),
+            0 | 3 => read.clone(),
             1 => prop_oneof![9 => read.clone(), 1 => write.clone()].boxed(),
             _ => prop_oneof![1 => read.clone(), 3 => write.clone()].boxed(),
         };
-        let tail = proptest::collection::vec(cop_strategy(Mix::Crowd, hot), 1..4);
+        let tail = if kind == 3 { proptest::collection::vec(read.clone(), 1..4).boxed() } else { proptest::collection::vec(cop_strategy(Mix::Crowd, hot), 1..4).boxed() };
         (proptest::collection::vec(member, size as usize), tail).prop_map(move |(members, tail)| {
             let mut threads: Vec<Vec<COp>> = members.into_iter().map(|o| vec![o]).collect();
             threads.push(tail);
